@@ -412,11 +412,17 @@ where
 impl<A, B, C> Layered<A, B, C>
 where
     A: Subscribe<C>,
+    B: 'static,
     C: Collect,
 {
     pub(super) fn new(subscriber: A, inner: B, inner_has_subscriber_filter: bool) -> Self {
+        // Note that this must look at the type of the `inner` value itself,
+        // rather than at the collector type parameter: when two subscribers
+        // are composed with `and_then`, `C` is still the `Registry`, but
+        // `inner` is a subscriber whose `Interest` and max level hint must be
+        // taken into account.
         #[cfg(all(feature = "registry", feature = "std"))]
-        let inner_is_registry = TypeId::of::<C>() == TypeId::of::<crate::registry::Registry>();
+        let inner_is_registry = TypeId::of::<B>() == TypeId::of::<crate::registry::Registry>();
         #[cfg(not(all(feature = "registry", feature = "std")))]
         let inner_is_registry = false;
 
